@@ -60,7 +60,8 @@ func VerifC17Find() {
 	for i := 0; i < n; i++ {
 		a, b := uint64(vInt(0, 3)), uint64(vInt(0, 3))
 		m.db = append(m.db, &MemoryRecord{Time: &TimeRecord{
-			MTimeTracked: am.Time{a, b}, MTimeSum: a + b + uint64(i), MTimeTrackedSum: a + b, MachTick: uint32(i + 1),
+			MTimeTracked: am.Time{a, b}, MTimeSum: a + b + uint64(vInt(0, 3)), MTimeTrackedSum: a + b, MachTick: uint32(i + 1),
+			MTimeDiffSum: uint64(vInt(0, 3)), MTimeTrackedDiffSum: uint64(vInt(0, 3)), MTimeRecordDiffSum: uint64(vInt(0, 3)),
 		}})
 	}
 	which := vParam("cond", 0)
@@ -85,6 +86,18 @@ func VerifC17Find() {
 	case 5:
 		q.Start.MachTick = uint32(vInt(1, 3))
 		q.End.MachTick = q.Start.MachTick + uint32(vInt(0, 2))
+	case 6:
+		q.Start.MTimeTrackedSum = uint64(vInt(1, 4))
+		q.End.MTimeTrackedSum = q.Start.MTimeTrackedSum + uint64(vInt(0, 3))
+	case 7:
+		q.Start.MTimeDiff = uint64(vInt(1, 3))
+		q.End.MTimeDiff = q.Start.MTimeDiff + uint64(vInt(0, 2))
+	case 8:
+		q.Start.MTimeTrackedDiff = uint64(vInt(1, 3))
+		q.End.MTimeTrackedDiff = q.Start.MTimeTrackedDiff + uint64(vInt(0, 2))
+	case 9:
+		q.Start.MTimeRecordDiff = uint64(vInt(1, 3))
+		q.End.MTimeRecordDiff = q.Start.MTimeRecordDiff + uint64(vInt(0, 2))
 	}
 	limit := vInt(0, 2)
 	vKnown("c17-findlatest-state-filters-ignored", which <= 3)
@@ -111,6 +124,14 @@ func VerifC17Find() {
 			ok = r.Time.MTimeSum >= q.Start.MTimeSum && r.Time.MTimeSum <= q.End.MTimeSum
 		case 5:
 			ok = r.Time.MachTick >= q.Start.MachTick && r.Time.MachTick <= q.End.MachTick
+		case 6:
+			ok = r.Time.MTimeTrackedSum >= q.Start.MTimeTrackedSum && r.Time.MTimeTrackedSum <= q.End.MTimeTrackedSum
+		case 7:
+			ok = r.Time.MTimeDiffSum >= q.Start.MTimeDiff && r.Time.MTimeDiffSum <= q.End.MTimeDiff
+		case 8:
+			ok = r.Time.MTimeTrackedDiffSum >= q.Start.MTimeTrackedDiff && r.Time.MTimeTrackedDiffSum <= q.End.MTimeTrackedDiff
+		case 9:
+			ok = r.Time.MTimeRecordDiffSum >= q.Start.MTimeRecordDiff && r.Time.MTimeRecordDiffSum <= q.End.MTimeRecordDiff
 		}
 		if ok {
 			want = append(want, r)
@@ -148,6 +169,10 @@ func VerifC17Track() {
 	case 4:
 		cfg.Changed = am.S{"B"}
 		cfg.ChangedExclude = true
+	case 5:
+		// block list over a state that is not tracked
+		cfg.Changed = am.S{"X"}
+		cfg.ChangedExclude = true
 	}
 	cfg.TrackRejected = vBool()
 	tr := &tracer{mem: m}
@@ -156,7 +181,7 @@ func VerifC17Track() {
 	expect := 0
 	var lastWant am.Time
 	for i := 0; i < k; i++ {
-		next := am.Time{cur[0], cur[1] + uint64(vInt(0, 1)), cur[2] + uint64(vInt(0, 1))}
+		next := am.Time{cur[0] + uint64(vInt(0, 1)), cur[1] + uint64(vInt(0, 1)), cur[2] + uint64(vInt(0, 1))}
 		calledA := vBool()
 		accepted := vBool()
 		isCheck := vBool()
@@ -175,6 +200,7 @@ func VerifC17Track() {
 		tr.TransitionEnd(tx)
 		// reference match rule (unambiguous configurations only)
 		changedB := next[2] != cur[2]
+		changedX := next[0] != cur[0]
 		match := true
 		switch mode {
 		case 1:
@@ -185,6 +211,8 @@ func VerifC17Track() {
 			match = changedB
 		case 4:
 			match = !changedB
+		case 5:
+			match = !changedX
 		}
 		if isCheck || (!accepted && !cfg.TrackRejected) {
 			match = false
